@@ -299,7 +299,9 @@ def _call_method(ex, base, attr, args, kwargs, st, node, spec, after=None):
             static = w.cls_by_tag(z3.simplify(tag).as_long())
         elif tag is not None and after is None:
             alts = w.dispatch_targets(base.cls, attr)
-            if len(alts) > 1:
+            concrete_all = [c_ for c_ in w.subclasses(base.cls) if not w.is_abstract(c_)]
+            covered = {c_ for _, cs in alts for c_ in cs}
+            if len(alts) > 1 or (alts and any(c_ not in covered for c_ in concrete_all)):
                 return dispatch_split(ex, base, tag, alts, attr, args, kwargs, st, node, spec)
         m = w.find_method(static, attr, after=after)
         if m is None:
@@ -322,6 +324,9 @@ def dispatch_split(ex, base, tag, alts, attr, args, kwargs, st, node, spec):
     """alts: list of (defining class, [concrete class names])."""
     w = ex.world
     results = []
+    if not spec:
+        ex.oblige(f"has_method.{attr}", "dispatch", st,
+                  z3.Or(*[tag == w.cls_tag(cn) for _, cs in alts for cn in cs]), node)
     for mcls, concrete in alts:
         cond = z3.Or(*[tag == w.cls_tag(cn) for cn in concrete])
         if not ex.feasible(st, cond):
